@@ -71,6 +71,15 @@ func HarnessC09Host(st any) {
 		return
 	}
 	sym.Assert(rr != nil && rr.Pattern() == want.route.pattern && rtsr == want.tsr, "Reverse: hostname routes first (whole host), path-only routes as fallback")
+	// the same through a transaction and through an iterator
+	txn := s.r.Txn(false)
+	tr, tcc, ttsr := txn.Lookup(nil, req)
+	if tcc != nil {
+		tcc.Close()
+	}
+	tv, tvtsr := txn.Reverse(method, host, path)
+	txn.Abort()
+	sym.Assert(tr == rte && ttsr == tsr && tv == rr && tvtsr == rtsr, "Txn.Lookup / Txn.Reverse decide hosts like the router")
 	sym.Assert(rte != nil, "a route matches this host and path")
 	if rte == nil {
 		return
